@@ -253,7 +253,11 @@ Definition unpack_coeff (c : Z) (content : Z) : Z := Z.land content (Z.shiftl 1 
 
 (* ---- help1: the dispatcher *)
 Inductive choice := B64 | B128 | C128.
-Definition clamp_dim (n dim_max : Z) : Z := if n - 2 <? dim_max then n - 2 else dim_max.
+(* dim_max is clamped to n - 2 and to what dimension_t = int8_t can hold (dim_max + 2 <= 127) *)
+Definition dim_limit : Z := 125.
+Definition clamp_dim (n dim_max : Z) : Z :=
+  let d := if n - 2 <? dim_max then n - 2 else dim_max in
+  if dim_limit <? d then dim_limit else d.
 Definition bitfield_size (n dim_max modulus : Z) : Z :=
   log2up n * (clamp_dim n dim_max + 2) + log2up (modulus - 1).
 Definition dispatch (n dim_max modulus : Z) : choice :=
